@@ -128,25 +128,25 @@ theorem build_timespan_shape (text : List Char) (kids : List T) (hs : SpanShape 
     (h : buildTimespan (.node .timespan text kids) = .ok x) : x.repeats ≠ none → x.openEnd = false := by
   rcases hs with ⟨a, b, c, rfl, -, hb, hc⟩ | ⟨a, b, c, rfl, -, hb, hc⟩ | ⟨a, b, c, rfl, -, hb, hc⟩ |
     ⟨a, b, rfl, -, hb⟩ | ⟨a, b, rfl, -, hb⟩
-  · simp only [buildTimespan, assertRule, rule_node, kids_node, reduceIte, hb, hc, bind, Except.bind] at h
+  · simp only [buildTimespan, assertRule, time_rule_node, time_kids_node, reduceIte, hb, hc, bind, Except.bind] at h
     cases h1 : buildTime a <;> simp only [h1] at h <;> try cases h
     cases h2 : buildExtendedTime b <;> simp [h2] at h
     cases h3 : buildHourMinutesAsDuration c <;> simp [h3] at h
     subst h; simp
-  · simp only [buildTimespan, assertRule, rule_node, kids_node, reduceIte, hb, hc, bind, Except.bind] at h
+  · simp only [buildTimespan, assertRule, time_rule_node, time_kids_node, reduceIte, hb, hc, bind, Except.bind] at h
     cases h1 : buildTime a <;> simp only [h1] at h <;> try cases h
     cases h2 : buildExtendedTime b <;> simp [h2] at h
     cases h3 : buildMinute c <;> simp [h3] at h
     subst h; simp
-  · simp only [buildTimespan, assertRule, rule_node, kids_node, reduceIte, hb, hc, bind, Except.bind] at h
+  · simp only [buildTimespan, assertRule, time_rule_node, time_kids_node, reduceIte, hb, hc, bind, Except.bind] at h
     cases h1 : buildTime a <;> simp only [h1] at h <;> try cases h
     cases h2 : buildExtendedTime b <;> simp [h2] at h
     subst h; simp
-  · simp only [buildTimespan, assertRule, rule_node, kids_node, reduceIte, hb, bind, Except.bind] at h
+  · simp only [buildTimespan, assertRule, time_rule_node, time_kids_node, reduceIte, hb, bind, Except.bind] at h
     cases h1 : buildTime a <;> simp only [h1] at h <;> try cases h
     cases h2 : buildExtendedTime b <;> simp [h2] at h
     subst h; simp
-  · simp only [buildTimespan, assertRule, rule_node, kids_node, reduceIte, hb, bind, Except.bind] at h
+  · simp only [buildTimespan, assertRule, time_rule_node, time_kids_node, reduceIte, hb, bind, Except.bind] at h
     cases h1 : buildTime a <;> simp [h1] at h
     subst h; simp
 
